@@ -13,27 +13,42 @@ from sa.props._lib_k import Func, Interp, Mock, Nonterminating
 PROPERTY = "C58"
 CS = "application/_client_service.py"
 INET = "application/internet.py"
-TECHNIQUE = "state x input matrix from builder-call AST + resource-typestate may-analysis (exhaustive BFS)"
+TECHNIQUE = "complete state x input table + exhaustive typestate exploration; effects, def-use, CFG"
 EXPLANATION = (
-    "The automat declaration in makeMachine is read from the AST (states with factories, every S.upon(input[, nodata]).to(T)/.loop() "
-    "chain, plain or as a pep614 decorator) into the state x input matrix. The resources each state factory registers are inferred "
-    "from where it hands out c.<input> (addCallback/addErrback = connection attempt, constructor argument = connection spawned while "
-    "the attempt is outstanding, callLater = retry timer); waiter effects of every factory / transition body are extracted in order "
-    "(derived from what the _Core methods do to their lists), and every factory / body is interpreted concretely on a model _Core to "
-    "tabulate what it does to failedAttempts and what it asks of the retry policy. A forward may-analysis explores every "
-    "configuration (state, outstanding attempt / connection / retry, pending connect- and stop-waiters, whether the last public "
-    "request was start or stop, a ghost count of consecutive failures since the last successful connection, failedAttempts) under "
-    "automat's semantics (factory before body, re-entrant inputs postponed) and requires: every input a resource can still produce "
-    "and every public input has a transition; no attempt starts while an attempt or connection is open, no second timer; after a "
-    "stop no attempt or retry is started, an idle stopped service rests in a state that answers stop immediately with no connect "
-    "waiter pending, an idle started service does not exist; connect waiters are resolved on entering a state that answers "
-    "whenConnected immediately; stop waiters may be pending only in states whose events resolve them and are never stranded; on "
-    "every entry to the retry-scheduling state the policy is asked for exactly the ghost count. unawait / finishStopping / the "
-    "failed-attempt body / the queueing body run concretely on small waiter lists (swap before firing, exact failure-limit "
-    "bookkeeping, each waiter once); the retry factory schedules once, with the policy's delay and the reconnect input, and returns "
-    "the delayed call; the attempt factory closes its chain with the errback and connects through the disconnect-reporting proxy; "
-    "ClientService forwards to the machine. Not decided: clock arithmetic of backoffPolicy, cancellers that fire a success."
+    "Finite-exhaustive: the automat declaration is obtained by interpreting makeMachine against a recording model of the builder (loops "
+    "over constant tables, decorators, plain registrar calls all read alike); that yields the COMPLETE finite table (7 states x 7 "
+    "inputs). Resource roles come from where each state factory hands out c.<input> (addCallback/addErrback = attempt, constructor "
+    "argument = spawned connection, callLater = timer) and ordered waiter effects of every factory / body are extracted statically "
+    "(derived from what the _Core methods do to their lists). Every configuration of the abstract domain (state x {0,1,2+} attempts / "
+    "connections / timers x pending connect / stop waiters x last public request) is explored under automat's semantics, so the "
+    "verdicts are for-all over that domain: every input a resource can still produce and every public input has a transition; no "
+    "attempt starts while one is open, no second timer; after a stop no attempt / retry starts, an idle stopped service rests in a state "
+    "answering stop immediately with no connect waiter pending, an idle started service does not exist; connect waiters are resolved on "
+    "entering a state that answers whenConnected immediately; stop waiters pend only in states whose events resolve them and are never "
+    "stranded. The failure-limit partition is evaluated on every class of its domain {None, <= 1, > 1} (the limit is only compared with "
+    "constants / decremented - checked structurally). Structural: stop cancels the attempt / timer and closes the connection; the "
+    "attempt's outcomes are all delivered, the errback closes the chain, the endpoint is connected through the disconnect proxy, "
+    "connectionLost notifies on every path (exception edges included); every waiter list read by unawait / finishStopping / the "
+    "failed-attempt body is replaced on every path before the loop that fires the Deferreds (must-precede); callLater receives the "
+    "policy's delay and the reconnect input and its result is the state's data (def-use); ClientService forwards to the machine. "
+    "Bounded: the retry policy is asked for exactly the number of consecutive failures (ghost counter explored up to 3 failures, "
+    "failedAttempts effects tabulated by interpreting each function for 0..5); concrete runs of unawait / finishStopping / queueing on "
+    "small waiter lists. Not decided: clock arithmetic of backoffPolicy, cancellers that fire a success."
 )
+RULE_KINDS = {
+    # finite-exhaustive: the transition table obtained by interpreting makeMachine's builder calls is the complete finite automaton
+    # (7 states x 7 inputs); the exploration visits EVERY configuration of the abstract domain state x {0,1,2+} attempts / connections /
+    # timers x waiter flags x last public request - counts saturate at 2 because the property only distinguishes "none / one / more than one"
+    "matrix/": "finite-exhaustive", "one-connection/": "finite-exhaustive", "stopped/": "finite-exhaustive", "running/": "finite-exhaustive",
+    "waiters/resolved-on-entry": "finite-exhaustive", "stop-waiters/": "finite-exhaustive",
+    "waiters/failure-limit": "finite-exhaustive",          # limit classes {None, <=1, >1}: see waiters/failure-limit-domain
+    # structural: effects / def-use / CFG on the (normalised) source
+    "stop/": "structural", "attempt/": "structural", "service/": "structural", "waiters/list-swapped-before-firing": "structural",
+    "waiters/failure-limit-domain": "structural", "retry/schedules-policy-delay": "structural",
+    # bounded: concrete runs on sample values / the ghost counter explored up to 3 consecutive failures
+    "retry/delay-counts-consecutive-failures": "bounded", "retry/factory-run": "bounded", "waiters/each-fired-once": "bounded",
+    "waiters/swap-order-run": "bounded", "waiters/queued-with-limit": "bounded",
+}
 ASSUMPTIONS = [
     "automat: first declared state is initial; a data-state factory runs before the transition body and only when the target differs "
     "from the source; inputs sent re-entrantly are postponed until the running transition finished (read from automat/_typed.py)",
@@ -654,11 +669,19 @@ def check(ctx):
     if ex is not None:
         with ctx.section("connection attempt wiring"):
             check_attempt(ctx, m, ex)
+        with ctx.section("waiter lists: swap-before-fire (structural)"):
+            check_swap_structure(ctx, m, ex)
+        with ctx.section("failure-limit domain"):
+            check_limit_domain(ctx, m, ex)
         with ctx.section("waiter lists"):
             check_core(ctx, m, ex)
+        with ctx.section("retry scheduling (structural)"):
+            check_retry_structure(ctx, m, ex)
         with ctx.section("retry scheduling"):
             check_retry(ctx, m, ex)
     else:
+        with ctx.section("waiter lists: swap-before-fire (structural)"):
+            check_swap_structure(ctx, None, None)
         with ctx.section("waiter lists (_Core only)"):
             check_core(ctx, None, None)
     with ctx.section("ClientService wrappers"):
@@ -707,6 +730,148 @@ def check_attempt(ctx, m, ex):
             ctx.check(bool(lose), "stop/closes-connection", QM + "." + b.name, "stop while connected no longer closes the connection: the stop Deferred waits forever")
 
 
+# ---- structural: swap-before-fire ordering, retry scheduling def-use (normalised view) ----------------------------------------
+def _norm_cs(ctx):
+    from sa.props._lib_j import Normaliser
+    try:
+        return Normaliser(ctx.mod(CS), set()).run()
+    except RecursionError:
+        return ctx.mod(CS)
+
+
+def _waiter_attrs(ctx):
+    """The list-valued fields of _Core (dataclass fields built by default_factory=list)."""
+    cls = ctx.cls(CS, "_Core")
+    out = set()
+    for n in cls.body:
+        if isinstance(n, ast.AnnAssign) and isinstance(n.target, ast.Name) and isinstance(n.value, ast.Call):
+            kw = {k.arg: k.value for k in n.value.keywords}
+            if isinstance(kw.get("default_factory"), ast.Name) and kw["default_factory"].id == "list":
+                out.add(n.target.id)
+    return out or {"stopWaiters", "awaitingConnected"}
+
+
+def _fire_loops(func):
+    out = []
+    for lp in ast.walk(func):
+        if isinstance(lp, ast.For):
+            tn = {x.id for x in ast.walk(lp.target) if isinstance(x, ast.Name)}
+            fires = [c for c in ast.walk(lp) if isinstance(c, ast.Call) and isinstance(c.func, ast.Attribute) and c.func.attr in ("callback", "errback")
+                     and isinstance(c.func.value, ast.Name) and c.func.value.id in tn]
+            if fires:
+                out.append(lp)
+    return out
+
+
+def check_swap_structure(ctx, m, ex):
+    nm = _norm_cs(ctx)
+    lists = _waiter_attrs(ctx)
+    targets = [("_Core.unawait", nm.find("_Core.unawait")), ("_Core.finishStopping", nm.find("_Core.finishStopping"))]
+    if m is not None and ex is not None:
+        mk = nm.find("makeMachine")
+        for t in m.trans.values():
+            if t["body"] is not None and t["inp"] in ex.eb and t["src"] == ex.att_state and mk is not None:
+                fn = next((n for n in ast.walk(mk) if isinstance(n, ast.FunctionDef) and n.name == t["body"].name), None) or nm.find(t["body"].name)
+                targets.append((f"makeMachine.{t['body'].name}", fn))
+    for label, f in targets:
+        q = "twisted.application._client_service." + label
+        if not isinstance(f, ast.FunctionDef):
+            ctx.note(f"waiters/list-swapped-before-firing: {label} not found in the normalised module; clause left to waiters/swap-order-run")
+            continue
+        loops = _fire_loops(f)
+        if not loops:
+            ctx.note(f"waiters/list-swapped-before-firing: no loop firing Deferreds recognised in {label}; clause left to waiters/swap-order-run")
+            continue
+        g = ctx.cfg(f)
+        recv = f.args.args[0].arg if label.startswith("_Core") else (f.args.args[1].arg if len(f.args.args) > 1 else None)
+
+        def is_list(n, recv=recv):
+            return isinstance(n, ast.Attribute) and n.attr in lists and isinstance(n.value, ast.Name) and n.value.id == recv
+        for lp in loops:
+            head = g.ids_of(lp)[0]
+            if is_list(lp.iter):
+                ctx.violation("waiters/list-swapped-before-firing", q + f" | fires over self.{lp.iter.attr}",
+                              "the Deferreds are fired while iterating the live waiter list: a callback that re-enters the service sees (and can re-fire) them")
+                continue
+            read = {n.attr for n in ast.walk(f) if is_list(n) and isinstance(n.ctx, ast.Load)}
+            if not read:
+                ctx.note(f"waiters/list-swapped-before-firing: {label} fires Deferreds that do not come from a waiter list of the core; nothing to detach")
+            for attr in sorted(read):
+                stores = g.ids(lambda n, attr=attr: n.kind == "stmt" and isinstance(n.ast, (ast.Assign, ast.AnnAssign)) and
+                               any(is_list(x) and x.attr == attr and isinstance(x.ctx, ast.Store)
+                                   for t_ in (n.ast.targets if isinstance(n.ast, ast.Assign) else [n.ast.target]) for x in ast.walk(t_)))
+                w = g.must_precede(stores, [head]) if stores else g.path([g.entry], [head])
+                ctx.check(bool(stores) and w is None, "waiters/list-swapped-before-firing", q + f" | {attr} detached before firing",
+                          f"{attr} is not replaced before the first waiter is fired: it still holds the Deferreds being fired while their callbacks run "
+                          "(a re-entrant call fires them twice)", witness=g.describe(w))
+
+
+def check_retry_structure(ctx, m, ex):
+    from sa.props._lib_j import resolve
+    nm = _norm_cs(ctx)
+    fname = m.factory[ex.ret_state]
+    mk = nm.find("makeMachine")
+    f = next((n for n in ast.walk(mk) if isinstance(n, ast.FunctionDef) and n.name == fname), None) if mk is not None else None
+    f = f or nm.find(fname)
+    q = QM + "." + fname
+    if not isinstance(f, ast.FunctionDef):
+        ctx.note("retry/schedules-policy-delay: retry factory not found in the normalised module; clause left to retry/factory-run")
+        return
+    c, core = f.args.args[0].arg, f.args.args[1].arg
+    later = [x for x in ast.walk(f) if isinstance(x, ast.Call) and call_attr(x) == "callLater"]
+    if len(later) != 1 or len(later[0].args) < 2:
+        if len(later) > 1:
+            ctx.violation("retry/schedules-policy-delay", q + " | callLater", f"{len(later)} callLater calls: more than one retry timer is scheduled per failure")
+        else:
+            ctx.note("retry/schedules-policy-delay: callLater call not recognised; clause left to retry/factory-run")
+        return
+    lc = later[0]
+    delay = resolve(lc.args[0], f)
+    ok = isinstance(delay, ast.Call) and call_name(delay) == f"{core}.timeoutForAttempt"
+    if not ok and not isinstance(delay, ast.Call):
+        ctx.note("retry/schedules-policy-delay: delay expression not resolved to a call; clause left to retry/factory-run")
+    else:
+        ctx.check(ok, "retry/schedules-policy-delay", q + " | delay", f"the delay passed to callLater is {src(delay)[:60]}, not the retry policy's answer")
+    ctx.check(src(lc.args[1]) == f"{c}.{ex.timer[0]}", "retry/schedules-policy-delay", q + " | callback", "the delayed call is not the reconnect input of the machine")
+    rets = [r for r in ast.walk(f) if isinstance(r, ast.Return) and r.value is not None]
+    if len(rets) == 1:
+        rv = resolve(rets[0].value, f)
+        ctx.check(rv is lc or src(rv) == src(resolve(lc, f)), "retry/schedules-policy-delay", q + " | returns the delayed call",
+                  "the retry state's data is not the delayed call: stop could not cancel the timer")
+
+
+def check_limit_domain(ctx, m, ex):
+    """The failure limit is inspected only through `is None`, comparisons with constants and `- 1`: {None, <= 1, > 1} are all its classes."""
+    nm = _norm_cs(ctx)
+    t = next((t for t in m.trans.values() if t["body"] is not None and t["inp"] in ex.eb and t["src"] == ex.att_state), None)
+    mk = nm.find("makeMachine")
+    f = next((n for n in ast.walk(mk) if isinstance(n, ast.FunctionDef) and t is not None and n.name == t["body"].name), None) if mk is not None else None
+    q = QM + "." + (t["body"].name if t else "?")
+    ok = None
+    if isinstance(f, ast.FunctionDef):
+        for lp in ast.walk(f):
+            if isinstance(lp, ast.For) and isinstance(lp.target, ast.Tuple) and len(lp.target.elts) == 2 and isinstance(lp.target.elts[1], ast.Name) \
+                    and "awaitingConnected" in src(lp.iter):
+                rem = lp.target.elts[1].id
+                ok = True
+                for n in ast.walk(lp):
+                    if isinstance(n, ast.Name) and n.id == rem and isinstance(n.ctx, ast.Load):
+                        par = getattr(n, "_parent", None)
+                        if isinstance(par, ast.Compare):
+                            others = [x for x in [par.left] + par.comparators if x is not n]
+                            ok = ok and all(isinstance(x, ast.Constant) for x in others)
+                        elif isinstance(par, ast.BinOp):
+                            ok = ok and isinstance(par.op, ast.Sub) and isinstance(par.right, ast.Constant)
+                        elif isinstance(par, (ast.Tuple, ast.Assign, ast.IfExp)):
+                            pass
+                        else:
+                            ok = False
+    if ok:
+        ctx.ok("waiters/failure-limit-domain", q, "the limit is only compared with constants / None and decremented: the classes {None, <= 1, > 1} (sampled as None, 0, 1, 2, 3) are its whole domain")
+    else:
+        ctx.note("waiters/failure-limit-domain: use of the failure limit not recognised as comparison-only; waiters/failure-limit is then evidence for the sampled limits only")
+
+
 # ---- K6: waiter list handling, run concretely ------------------------------------------------------------------
 def _fired(log):
     return [(x[0], x[1]) for x in log if x[0] != "setattr" and x[0].split(".")[-1] in ("callback", "errback")]
@@ -737,7 +902,7 @@ def check_core(ctx, m, ex):
         ctx.check(all(f[1] == want for f in fired), "waiters/each-fired-once", q + " | value", "the waiters are not fired with the given result")
         emptied = _first_index(log, lambda x: x[0] == "setattr" and x[1] is core and x[2] == attr and len(x[3]) == 0)
         first = _first_index(log, lambda x: x[0] != "setattr" and x[0].split(".")[-1] in ("callback", "errback"))
-        ctx.check(emptied is not None and (first is None or emptied < first) and core.attrs.get(attr) == [], "waiters/list-swapped-before-firing", q,
+        ctx.check(emptied is not None and (first is None or emptied < first) and core.attrs.get(attr) == [], "waiters/swap-order-run", q,
                   f"self.{attr} is not emptied before the first waiter is fired: a callback that re-enters the service sees (and can re-fire) Deferreds that are being fired")
     if m is None:
         return
@@ -763,7 +928,7 @@ def check_core(ctx, m, ex):
     ctx.check(ok, "waiters/failure-limit", q + " | kept", f"the remaining waiters / their remaining failure counts are wrong after one failure: {left}")
     detached = [i for i, x in enumerate(log) if x[0] == "setattr" and x[1] is core and x[2] == "awaitingConnected"]
     first = _first_index(log, lambda x: x[0] != "setattr" and x[0].split(".")[-1] in ("callback", "errback"))
-    ctx.check(bool(detached) and (first is None or detached[-1] < first), "waiters/list-swapped-before-firing", q,
+    ctx.check(bool(detached) and (first is None or detached[-1] < first), "waiters/swap-order-run", q,
               "awaitingConnected still contains the Deferreds being fired while their callbacks run (a re-entrant failure would fire them twice)")
     # awaiting: the queued entry is (deferred, limit) and that deferred is returned
     for k, t2 in m.trans.items():
@@ -785,13 +950,13 @@ def check_retry(ctx, m, ex):
     for fa in (0, 1, 2):
         calls = conc.policy[fname][fa]
         later = conc.later[fname][fa]
-        ctx.check(len(calls) == 1 and len(calls[0]) == 1, "retry/delay-from-policy", f"{q} | policy consulted once (failedAttempts={fa})",
+        ctx.check(len(calls) == 1 and len(calls[0]) == 1, "retry/factory-run", f"{q} | policy consulted once (failedAttempts={fa})",
                   f"the retry factory asks the policy {len(calls)} times / with {calls} instead of once with the failure count")
         ok = len(later) == 1 and len(later[0]) >= 2 and calls and later[0][0] == ("DELAY",) + calls[0] and repr(later[0][1]) == f"<c.{ex.timer[0]}>"
-        ctx.check(ok, "retry/delay-from-policy", f"{q} | callLater(delay, c.{ex.timer[0]}) (failedAttempts={fa})",
+        ctx.check(ok, "retry/factory-run", f"{q} | callLater(delay, c.{ex.timer[0]}) (failedAttempts={fa})",
                   f"the retry is not scheduled exactly once with the delay the policy returned and the reconnect input (callLater calls: {later})")
         ret = conc.returned[fname][fa]
-        ctx.check(repr(ret) == "<clock.callLater()>", "retry/delay-from-policy", f"{q} | returns the delayed call (failedAttempts={fa})",
+        ctx.check(repr(ret) == "<clock.callLater()>", "retry/factory-run", f"{q} | returns the delayed call (failedAttempts={fa})",
                   "the retry state's data is not the delayed call: stop could not cancel the timer")
 
 
@@ -847,11 +1012,11 @@ MUTANTS = [
     Mutant("start-while-disconnecting-reconnects", CS, "    Disconnecting.upon(_Client.start).to(Restarting).returns(None)\n", "    Disconnecting.upon(_Client.start).to(Connecting).returns(None)\n",
            expect_rule="one-connection/new-attempt-while-open"),
     Mutant("unawait-without-swap", CS, "        self.awaitingConnected, waiting = [], self.awaitingConnected\n", "        waiting = self.awaitingConnected\n", expect_rule="waiters/"),
-    Mutant("finish-stopping-without-swap", CS, "        self.stopWaiters, waiting = [], self.stopWaiters\n", "        waiting = self.stopWaiters\n", expect_rule="waiters/list-swapped-before-firing"),
+    Mutant("finish-stopping-without-swap", CS, "        self.stopWaiters, waiting = [], self.stopWaiters\n", "        waiting = self.stopWaiters\n", expect_rule="waiters/"),
     Mutant("failure-limit-off-by-one", CS, "            elif remaining <= 1:\n", "            elif remaining < 1:\n", expect_rule="waiters/failure-limit"),
     Mutant("failure-limit-not-decremented", CS, "                notReady.append((w, remaining - 1))\n", "                notReady.append((w, remaining))\n", expect_rule="waiters/failure-limit"),
     Mutant("fire-before-detach", CS, "        s.awaitingConnected = notReady\n        for w in ready:\n            w.callback(failure)\n", "        for w in ready:\n            w.callback(failure)\n        s.awaitingConnected = notReady\n",
-           expect_rule="waiters/list-swapped-before-firing"),
+           expect_rule="waiters/"),
     Mutant("delay-before-increment", CS, "        s.failedAttempts += 1\n        delay = s.timeoutForAttempt(s.failedAttempts)\n", "        delay = s.timeoutForAttempt(s.failedAttempts)\n        s.failedAttempts += 1\n",
            expect_rule="retry/delay-counts-consecutive-failures"),
     Mutant("counter-not-reset", CS, "        s.failedAttempts = 0\n        s.unawait(protocol._protocol)\n", "        s.unawait(protocol._protocol)\n", expect_rule="retry/delay-counts-consecutive-failures"),
@@ -874,7 +1039,7 @@ MUTANTS = [
     Mutant("stop-while-waiting-goes-to-disconnecting", CS, "    @pep614(Waiting.upon(_Client.stop).to(Stopped))\n", "    @pep614(Waiting.upon(_Client.stop).to(Disconnecting))\n",
            expect_rule="stopped/converges-to-stopped"),
     Mutant("retry-scheduled-twice", CS, "        return s.clock.callLater(delay, c._reconnect)\n", "        s.clock.callLater(delay, c._reconnect)\n        return s.clock.callLater(delay, c._reconnect)\n",
-           expect_rule="retry/delay-from-policy"),
+           expect_rule="retry/"),
     Mutant("repeated-stop-answers-immediately", CS, "        super().stopService()\n        return self._machine.stop()", "        if not self.running:\n            return succeed(None)\n        super().stopService()\n        return self._machine.stop()",
            expect_rule="service/forwards-to-machine"),
     Mutant("service-start-unguarded-double", CS, "        super().startService()\n        self._machine.start()\n", "        super().startService()\n", expect_rule="service/forwards-to-machine"),
